@@ -85,7 +85,8 @@ class Unpicklable(Exception):
 
 
 EXC_KINDS = ("ValueError", "CustomError", "KeyboardInterrupt", "SystemExit",
-             "CustomBase", "MemoryError", "Unpicklable", "KeyError", "OSError")
+             "CustomBase", "MemoryError", "Unpicklable", "KeyError", "OSError", "StopIteration",
+             "GeneratorExit")
 
 
 def make_exc(kind, msg):
@@ -107,6 +108,10 @@ def make_exc(kind, msg):
         return KeyError(msg)
     if kind == "OSError":
         return OSError(5, msg)
+    if kind == "StopIteration":
+        return StopIteration(msg)
+    if kind == "GeneratorExit":
+        return GeneratorExit(msg)
     raise AssertionError(kind)
 
 
@@ -115,6 +120,7 @@ EXC_TYPES = {
     "KeyboardInterrupt": KeyboardInterrupt, "SystemExit": SystemExit,
     "CustomBase": CustomBase, "MemoryError": MemoryError,
     "Unpicklable": Unpicklable, "KeyError": KeyError, "OSError": OSError,
+    "StopIteration": StopIteration, "GeneratorExit": GeneratorExit,
 }
 
 
